@@ -45,7 +45,7 @@ def handleC14 : List String → String
     | "qualified-private" => verdict ⟨.module, ["m"], false, 0⟩ []
     | "qualified-public" => verdict ⟨.module, ["m"], false, 0⟩ []
     | _ => "unmodelled")
-  | ["vis", decls, form, item] =>
+  | ["vis", decls, form, item, modpath] =>
     -- decls: kind:name:pub:variants(+)  separated by ';'
     let parseKind : String → Option DKind
       | "const" => some .const | "model" => some .model | "class" => some .class_ | "enum" => some .enum_
@@ -57,9 +57,11 @@ def handleC14 : List String → String
       | _, _ => none) (some [])
     (match ds with
     | some ds =>
-      let deps := [moduleExports "m" ds]
-      let rej := if form == "from" then rejectedNames deps ⟨.from_, ["m"], false, 0⟩ [item]
-                 else rejectedNames deps ⟨.module, ["m", item], false, 0⟩ []
+      -- the dependency is registered under the module's path joined by `_` (collect_modules), wherever it lives
+      let segs := modpath.splitOn "."
+      let deps := [moduleExports ("_".intercalate segs) ds]
+      let rej := if form == "from" then rejectedNames deps ⟨.from_, segs, false, 0⟩ [item]
+                 else rejectedNames deps ⟨.module, segs ++ [item], false, 0⟩ []
       if rej.isEmpty then "accept" else "reject"
     | none => "bad-op")
   | _ => "bad-op"
